@@ -3,6 +3,7 @@ package chain
 import (
 	"encoding/hex"
 	"fmt"
+	"sort"
 	"time"
 
 	"pgregory.net/rapid"
@@ -32,7 +33,11 @@ type World struct {
 	// OddRecipients: about a quarter of the worlds have users who occasionally send to a recipient that is not 20 bytes
 	// (rapid's IntRange is heavily biased to the range ends, so the rate is fixed per world rather than per send)
 	OddRecipients bool
-	entropy       int64
+	// GovUpgrades (opt-in, set by a check before generating histories): FEATURE upgrade transactions are part of the
+	// generated mix. They re-list features that are already scheduled (same height: no behaviour change, but the stored list is
+	// merged and de-duplicated) and schedule feature keys no code path consults, so oracles that model behaviour are unaffected.
+	GovUpgrades bool
+	entropy     int64
 }
 
 // Chains used by generated nodes/apps (all supported by the default pocketcore params).
@@ -380,9 +385,42 @@ func (w *World) GenDAO(rt *rapid.T) GenTx {
 	return w.sign(msg, signer, "dao", fmt.Sprintf("dao %s %d", action, amt))
 }
 
+// GenUpgrade: a FEATURE upgrade by the owner (or, sometimes, a stranger) naming 1-4 features: already scheduled ones at
+// their scheduled height, and synthetic keys (ZZA..ZZC) at generated heights, possibly repeating a key within one message
+// or across messages (re-scheduling).
+func (w *World) GenUpgrade(rt *rapid.T) GenTx {
+	signer := w.Spec.DAOOwner
+	if rapid.IntRange(0, 4).Draw(rt, "stranger") == 0 {
+		signer = drawKey(rt, "sk", w.AllFunded())
+	}
+	var known []string
+	for k := range w.Spec.Features {
+		known = append(known, k)
+	}
+	sort.Strings(known)
+	n := rapid.IntRange(1, 4).Draw(rt, "nFeatures")
+	var feats []string
+	for i := 0; i < n; i++ {
+		if len(known) > 0 && rapid.Bool().Draw(rt, "relist") {
+			k := known[rapid.IntRange(0, len(known)-1).Draw(rt, "known")]
+			feats = append(feats, fmt.Sprintf("%s:%d", k, w.Spec.Features[k]))
+		} else {
+			feats = append(feats, fmt.Sprintf("%s:%d", rapid.SampledFrom([]string{"ZZA", "ZZB", "ZZC"}).Draw(rt, "synthetic"), rapid.SampledFrom([]int64{4, 9, 20, 60}).Draw(rt, "at")))
+		}
+	}
+	msg := &govTypes.MsgUpgrade{Address: Addr(signer), Upgrade: govTypes.Upgrade{Height: 1, Version: "FEATURE", Features: feats}}
+	return w.sign(msg, signer, "upgrade", fmt.Sprintf("upgrade FEATURE %v", feats))
+}
+
 // GenAnyTx draws one transaction of any of the state-changing kinds above.
 func (w *World) GenAnyTx(rt *rapid.T) GenTx {
-	switch rapid.SampledFrom([]string{"send", "send", "nodeStake", "nodeStake", "nodeUnstake", "nodeUnjail", "appStake", "appTransfer", "appUnstake", "changeParam", "dao"}).Draw(rt, "kind") {
+	kinds := []string{"send", "send", "nodeStake", "nodeStake", "nodeUnstake", "nodeUnjail", "appStake", "appTransfer", "appUnstake", "changeParam", "dao"}
+	if w.GovUpgrades {
+		kinds = append(kinds, "upgrade")
+	}
+	switch rapid.SampledFrom(kinds).Draw(rt, "kind") {
+	case "upgrade":
+		return w.GenUpgrade(rt)
 	case "send":
 		return w.GenSend(rt)
 	case "nodeStake":
